@@ -143,7 +143,17 @@ impl PublisherAsync {
     /// Async version of [`delete_contained_entities`](crate::publication::publisher::Publisher::delete_contained_entities).
     #[tracing::instrument(skip(self))]
     pub async fn delete_contained_entities(&self) -> DdsResult<()> {
-        todo!()
+        let (reply_sender, reply_receiver) = oneshot();
+        self.dcps_sender()
+            .send(DcpsMail::Publisher(
+                PublisherServiceMail::DeleteContainedEntities {
+                    participant_handle: self.participant.get_instance_handle(),
+                    publisher_handle: self.handle,
+                    reply_sender,
+                },
+            ))
+            .await;
+        reply_receiver.await?
     }
 
     /// Async version of [`set_default_datawriter_qos`](crate::publication::publisher::Publisher::set_default_datawriter_qos).
